@@ -1,6 +1,7 @@
 import FH.Driver.Rules
 import FH.Driver.World
 import FH.Driver.Select
+import FH.Driver.PeMem
 open FH FH.Driver
 
 inductive DState where
@@ -26,6 +27,10 @@ def handleLine (st : DState) (line : String) : DState × String :=
       | none => (st, id ++ " bad-case")
     else if cmd == "select" then
       match handleSelect fs with
+      | some a => (st, id ++ " " ++ a)
+      | none => (st, id ++ " bad-case")
+    else if cmd == "pemem" then
+      match handlePeMem fs with
       | some a => (st, id ++ " " ++ a)
       | none => (st, id ++ " bad-case")
     else if cmd == "ana" then
